@@ -13,6 +13,11 @@ use std::collections::HashMap;
 struct Borrowed<'a> { #[serde(borrow)] s: Cow<'a, str> }
 #[derive(Deserialize)]
 struct BorrowedStr<'a> { s: &'a str }
+/// the literal under test between two other strings of the same document that are not UTF-8
+#[derive(Deserialize)]
+struct BetweenBytes<'a> { #[allow(dead_code)] p: serde_bytes::ByteBuf, #[serde(borrow)] s: Cow<'a, str>, #[allow(dead_code)] q: serde_bytes::ByteBuf }
+#[derive(Deserialize)]
+struct BetweenLossy<'a> { #[allow(dead_code)] p: String, #[serde(borrow)] s: Cow<'a, str>, #[allow(dead_code)] q: String }
 
 fn okj(s: &str, borrowed: Option<bool>) -> J {
     if std::str::from_utf8(s.as_bytes()).is_err() { return json!({"ok":true,"invalid_utf8":true,"s":[],"b":"na","panic":false}); }
@@ -38,7 +43,9 @@ pub fn event(ws: usize, lit: &[u8], follow: &[u8], origin: &str) -> J {
     let as_key = cat(&[&pad, b"{", lit, b":1}", follow_top(follow)]);
     let as_field = cat(&[&pad, b"{\"s\":", lit, b"}", follow_top(follow)]);
     let in_arr_key = cat(&[&pad, b"[{", lit, b":1}]", follow_top(follow)]);
+    let between = cat(&[&pad, b"{\"p\":\"\xff\xfea\",\"s\":", lit, b",\"q\":\"b\xc3\"}", follow_top(follow)]);
     // strict decoders
+    res.insert("cow_between_bytes".into(), run(|| sonic_rs::from_slice::<BetweenBytes>(&between).map(|b| { let bo = matches!(b.s, Cow::Borrowed(_)); if bo && !within(&between, &b.s) { json!({"ok":true,"panic":false,"dangling":true}) } else { okj(&b.s, Some(bo)) } })));
     res.insert("dom_inplace".into(), run(|| sonic_rs::from_slice::<Value>(&top).map(|v| match v.as_str() { Some(s) => okj(s, None), None => json!({"ok":false,"panic":false,"notstr":true}) })));
     res.insert("dom_copy".into(), run(|| sonic_rs::from_slice::<(Value,)>(&in_arr).map(|v| match v.0.as_str() { Some(s) => okj(s, None), None => json!({"ok":false,"panic":false,"notstr":true}) })));
     res.insert("string".into(), run(|| sonic_rs::from_slice::<String>(&top).map(|s| okj(&s, None))));
@@ -59,6 +66,7 @@ pub fn event(ws: usize, lit: &[u8], follow: &[u8], origin: &str) -> J {
     lossy.insert("string".into(), run(|| Deserializer::from_slice(&top).utf8_lossy().deserialize::<String>().map(|s| okj(&s, None))));
     lossy.insert("string_in_seq".into(), run(|| Deserializer::from_slice(&in_arr).utf8_lossy().deserialize::<Vec<String>>().map(|s| okj(&s[0], None))));
     lossy.insert("key_copy".into(), run(|| Deserializer::from_slice(&in_arr_key).utf8_lossy().deserialize::<(Value,)>().map(|v| match v.0.as_object().and_then(|o| o.iter().next()) { Some((k, _)) => okj(k, None), None => json!({"ok":false,"panic":false,"notstr":true}) })));
+    lossy.insert("cow_between".into(), run(|| Deserializer::from_slice(&between).utf8_lossy().deserialize::<BetweenLossy>().map(|b| { let bo = matches!(b.s, Cow::Borrowed(_)); okj(&b.s, Some(bo)) })));
     lossy.insert("map_key".into(), run(|| Deserializer::from_slice(&as_key).utf8_lossy().deserialize::<HashMap<String, u8>>().map(|m| okj(m.keys().next().unwrap(), None))));
     json!({"ev":"str","origin":origin,"ws":ws,"lit":bytes_j(lit),"follow":bytes_j(follow_top(follow)),"res":res,"lossy":lossy})
 }
